@@ -1002,8 +1002,15 @@ func (fr *Frame) next(x *ssa.Next) {
 	} else {
 		coll := it.El[0]
 		fr.assume(Implies(Eq(coll.S, IntLit(0)), Not(ok)))
-		k = freshVal(tup.At(1).Type(), "iterk")
-		v = freshVal(tup.At(2).Type(), "iterv")
+		// an unused key or value has the invalid type in go/ssa: represent it by a dummy
+		fv := func(t types.Type, nm string) *Val {
+			if b, isB := t.(*types.Basic); isB && b.Kind() == types.Invalid {
+				return &Val{K: VScalar, T: types.Typ[types.Bool], S: False}
+			}
+			return freshVal(t, nm)
+		}
+		k = fv(tup.At(1).Type(), "iterk")
+		v = fv(tup.At(2).Type(), "iterv")
 		if _, isMap := coll.T.Underlying().(*types.Map); isMap {
 			fr.mapInvAssume(coll.T, v, ok)
 		}
